@@ -34,10 +34,35 @@ class Goal:
         return f"g{self.idx}"
 
 
+# Order embeddings codes -> floats.  The model compares the integer codes exactly; the operators see floats
+# that are small multiples of 0.25, or distinct but nearly equal values (relative distance 1e-10 .. 1 ulp):
+# neighbouring normalised distances d/(d+1) for large d, nextafter neighbours, large raw distances a few ulps apart.
+def _ulps(base, k):
+    x = base
+    for _ in range(k):
+        x = math.nextafter(x, math.inf)
+    return x
+
+
+PALETTES = {
+    "quarter": lambda c: c * 0.25,
+    "normalised-5e4": lambda c: (49999.0 + c) / (50000.0 + c),          # 0.99998000039..., 0.99998000079..., ...
+    "normalised-1e7": lambda c: (1e7 + c) / (1e7 + 1.0 + c),
+    "nextafter-0.5": lambda c: _ulps(0.5, c),
+    "nextafter-1": lambda c: _ulps(1.0, c),
+    "raw-1e12": lambda c: 1e12 + 16.0 * c,                                # 1e12 vs 1e12+16
+    "raw-1e15-ulps": lambda c: _ulps(1e15, 3 * c),
+    "tiny": lambda c: c * 5e-324,
+}
+for _name, _f in PALETTES.items():                                         # strictly increasing = order embedding
+    _v = [_f(c) for c in range(60)]
+    assert all(a < b for a, b in zip(_v, _v[1:])), _name
+
+
 class Ind:
-    def __init__(self, key, codes, length):
-        self.key, self.codes, self.len = key, codes, length
-        self.row = [c * 0.25 for c in codes]      # order embedding codes -> floats
+    def __init__(self, key, codes, length, pal="quarter"):
+        self.key, self.codes, self.len, self.pal = key, codes, length, pal
+        self.row = [PALETTES[pal](c) for c in codes]
         self.rank = -1
         self.distance = -1.0
 
@@ -81,11 +106,11 @@ def gen_population(rng):
     goals = list(dict.fromkeys(goals))                         # goals form a set
     pop = rng.choice([1, 2, 5, 10, 10, 50, 50, 100, n, max(1, n // 2)])
     coins = [rng.random() < 0.5 for _ in range(len(goals) * n + 1)]
-    return {"goals": goals, "pop": pop, "sols": sols, "coins": coins}
+    return {"goals": goals, "pop": pop, "sols": sols, "coins": coins, "pal": rng.choice(list(PALETTES) + ["quarter"])}
 
 
 def make_objs(case):
-    objs = [Ind(k, codes, ln) for k, codes, ln in case["sols"]]
+    objs = [Ind(k, codes, ln, case.get("pal", "quarter")) for k, codes, ln in case["sols"]]
     for o, r in zip(objs, case.get("ranks") or []):
         o.rank = r                                   # stale attribute from an earlier round / a clone
     for o, d in zip(objs, case.get("dists") or []):
@@ -111,9 +136,9 @@ def next_round(rng, case, objs):
     for _ in range(rng.choice([0, 1, 2, 4])):
         parent = rng.choice(objs)
         if rng.random() < 0.5:
-            child = Ind(parent.key, list(parent.codes), parent.len)                 # unchanged clone (== parent)
+            child = Ind(parent.key, list(parent.codes), parent.len, parent.pal)                 # unchanged clone (== parent)
         else:
-            child = Ind(nxt, [max(0, c + rng.choice([-1, 0, 0, 1])) for c in parent.codes], max(1, parent.len + rng.choice([-1, 0, 1])))
+            child = Ind(nxt, [max(0, c + rng.choice([-1, 0, 0, 1])) for c in parent.codes], max(1, parent.len + rng.choice([-1, 0, 1])), parent.pal)
             nxt += 1
         child.rank, child.distance = parent.rank, parent.distance
         objs.append(child)
@@ -128,7 +153,7 @@ def next_round(rng, case, objs):
     new = {"goals": goals, "pop": rng.choice([case["pop"], case["pop"], n, 2 * n, 100]),
            "sols": [(o.key, list(o.codes), o.len) for o in objs],
            "coins": [rng.random() < 0.5 for _ in range(len(goals) * n + 1)],
-           "ranks": [o.rank for o in objs], "dists": [o.distance for o in objs]}
+           "ranks": [o.rank for o in objs], "dists": [o.distance for o in objs], "pal": case.get("pal", "quarter")}
     return new, objs
 
 
@@ -442,13 +467,15 @@ def run(ctx: vlib.Ctx):
         a = (0, [rng.randrange(span + 1) for _ in range(width)], rng.randint(1, 3))
         b = (1, [rng.randrange(span + 1) for _ in range(width)], rng.randint(1, 3))
         goals = list(dict.fromkeys(rng.randrange(width) for _ in range(rng.choice([0, 1, 2, width, width + 1]))))
-        oa, ob = Ind(*a), Ind(*b)
+        pal = rng.choice(list(PALETTES))
+        ctx.count("values:" + pal)
+        oa, ob = Ind(*a, pal), Ind(*b, pal)
         flag = DominanceComparator(goals=mk_goals(goals)).compare(oa, ob)
         exp = -1 if py_dominates(goals, oa, ob) else (1 if py_dominates(goals, ob, oa) else 0)
         if flag != exp:
             n_oracle_fail += 1
             ctx.fail("comparator:dominance", f"DominanceComparator.compare returned {flag}, dominance says {exp}",
-                     {"kind": "dom", "goals": goals, "a": a, "b": b})
+                     {"kind": "dom", "goals": goals, "a": a, "b": b, "pal": pal, "a_values": [v.hex() for v in oa.row], "b_values": [v.hex() for v in ob.row]})
         cases.append(f"C14.CDom {c_goals(goals)} {c_ind(a)} {c_ind(b)} {cZ(flag)}")
         recs.append(("dom", {"goals": goals, "a": a, "b": b, "impl": flag}))
         ctx.case_seen(("dom", goals, a, b))
@@ -460,7 +487,11 @@ def run(ctx: vlib.Ctx):
         recs.append(("pref", {"goal": g, "a": a, "b": None if none else b, "impl": pf}))
         ctx.case_seen(("pref", g, a, b, none))
         x, y = rng.randrange(4), rng.randrange(4)
-        cf = compare(x * 0.25, y * 0.25)
+        cf = compare(PALETTES[pal](x), PALETTES[pal](y))
+        if cf != (x > y) - (x < y):
+            n_oracle_fail += 1
+            ctx.fail("comparator:compare", f"compare({PALETTES[pal](x)!r}, {PALETTES[pal](y)!r}) returned {cf}",
+                     {"kind": "cmp", "a": PALETTES[pal](x).hex(), "b": PALETTES[pal](y).hex()})
         cases.append(f"C14.CCmp {cZ(x)} {cZ(y)} {cZ(cf)}")
         recs.append(("cmp", {"a": x, "b": y, "impl": cf}))
         ctx.case_seen(("cmp", x, y), nontrivial=False)
@@ -496,6 +527,7 @@ def run(ctx: vlib.Ctx):
             ctx.count("rank:with-equal-chromosomes")
         if drawn:
             ctx.count("rank:with-coin-flips")
+        ctx.count("values:" + case.get("pal", "quarter"))
         cases.append("C14.CRank %s %s %s %s %s %s" % (
             c_goals(case["goals"]), cZ(case["pop"]), clist(c_ind(s) for s in case["sols"]),
             clist(cbool(c) for c in case["coins"][:drawn + 2]), clist(clist(cZ(k) for k in fr) for fr in obs), cnat(drawn)))
